@@ -234,6 +234,9 @@ def maskAdjPts {α} (mask : NpMask) (adj : Adj) (pts : List α) : Adj × List α
   | _, a => (a, [])
 
 
+/-- the body of a helper function inlined at its call site (the identity: it fixes the type of the helper's result) -/
+@[reducible] def inlined {τ : Type} (x : Except Err τ) : Except Err τ := x
+
 /-- `x.shape[0]` -/
 class PyShape (c : Type) where
   shape0 : c → Except Err Nat
